@@ -157,7 +157,8 @@ type Gen struct {
 	rng    *rand.Rand
 	large  int
 	serial int
-	badStr bool // allow strings that are not valid UTF-8
+	badStr bool // allow operator strings that are not valid UTF-8
+	rawInvalid int // raw invalid strings handed to peers.NewPeer
 }
 
 var specials = [][]byte{
@@ -249,7 +250,14 @@ func (g *Gen) Itx() hg.InternalTransaction {
 	if g.rng.Intn(2) == 0 {
 		t = hg.PEER_REMOVE
 	}
-	it := hg.NewInternalTransaction(t, *peers.NewPeer(g.String(), g.UserString(), g.UserString()))
+	// always through peers.NewPeer, as requestJoin / leave / the tests build their peers (never a Peer literal)
+	key, rawNet, rawMon := g.String(), g.UserString(), g.UserString()
+	p := peers.NewPeer(key, rawNet, rawMon)
+	if g.badStr {
+		g.rawInvalid += b2i(!utf8.ValidString(rawNet)) + b2i(!utf8.ValidString(rawMon))
+		fmt.Fprintf(out, "PX NP %s %s %s => %s %s %s\n", sTok(key), sTok(rawNet), sTok(rawMon), sTok(p.PubKeyHex), sTok(p.NetAddr), sTok(p.Moniker))
+	}
+	it := hg.NewInternalTransaction(t, *p)
 	it.Signature = g.String()
 	return it
 }
